@@ -153,7 +153,9 @@ func (g *Gen) metadata() string {
 	return Pick(g.R, []string{"", "regen:13toVgf5UjYBz6J29gnPFrMkKVtTPSEhPKAkjK8kq1jwJNrgzhfeaQ8.rdf", "meta", "m" + fmt.Sprint(g.R.Intn(1000)), strings.Repeat("x", 250)})
 }
 
-func (g *Gen) reason() string { return Pick(g.R, []string{"", "offsetting", "because " + fmt.Sprint(g.R.Intn(50))}) }
+func (g *Gen) reason() string {
+	return Pick(g.R, []string{"", "offsetting", "because " + fmt.Sprint(g.R.Intn(50))})
+}
 
 // coinAmount returns an integer amount string relative to balance bal.
 func (g *Gen) intLE(max *big.Int) *big.Int {
